@@ -391,6 +391,10 @@ class Explorer:
                     raise EngineError(f"unresolved external callee {o[1]} (line {getattr(node, 'lineno', '?')}): add a stub")
                 self.stubs_used.add(o[1])
                 return st(run, args, kwargs, node)
+            if kind == "method" and isinstance(o[1], Conc) and o[1].obj == ("builtin", "dict") and o[2] == "fromkeys" and len(args) == 1:
+                # dict.fromkeys(seq): the distinct elements of seq in first-appearance order (opaque `dedupe`)
+                sq = ops.iter_to_seq(run, args[0], node)
+                return Conc(("seqview", Val(sq.ty, ops.uf(f"dedupe_{sq.ty.name}", sq.ty.sort(), sq.ty.sort())(sq.t))))
             if kind == "method":
                 obj, attr = o[1], o[2]
                 hook = self.reg.stubs.get(("method", _tyname(obj), attr))
